@@ -9,8 +9,9 @@ import (
 	"strings"
 
 	"pgregory.net/rapid"
-	"verif/harness/graph"
 	altzoo "verif/harness/alt/zoo"
+	"verif/harness/graph"
+	"verif/harness/kit"
 	"verif/harness/zoo"
 )
 
@@ -109,6 +110,38 @@ func init() {
 		Types["[]"+b.n] = reflect.SliceOf(b.t)
 		SliceTypes = append(SliceTypes, "[]"+b.n)
 	}
+}
+
+// ---- decoy fields: harmless fields of other kinds between the component points of a consumer --------
+
+var decoyWant = map[string]any{}
+
+func init() {
+	for _, k := range kit.DecoyKinds() {
+		Types["decoy:"+k.Kind] = k.Type
+		decoyWant["decoy:"+k.Kind] = k.Want
+	}
+}
+
+// DrawDecoyField draws one decoy field (see kit.Decoys).
+func DrawDecoyField(t *rapid.T) FieldSpec {
+	k := rapid.SampledFrom(kit.DecoyKinds()).Draw(t, "decoykind")
+	return FieldSpec{Type: "decoy:" + k.Kind, Tag: k.Tag}
+}
+
+// CheckDecoys: after a successful start every decoy field of consumer object obj holds its stated value.
+func CheckDecoys(obj any, c ConsSpec) error {
+	v := reflect.ValueOf(obj).Elem()
+	for i, f := range c.Fields {
+		want, ok := decoyWant[f.Type]
+		if !ok {
+			continue
+		}
+		if got := v.Field(i + 1).Interface(); !reflect.DeepEqual(got, want) {
+			return fmt.Errorf("neighbouring field F%d (%s `%s`) holds %#v, want %#v", i, f.Type, f.Tag, got, want)
+		}
+	}
+	return nil
 }
 
 // ConsumerType builds the run-time struct type of consumer k.
